@@ -97,6 +97,104 @@ def evaluate(c, cells, predicted, known, seen_sites, beyond, cfg, n_eval, n_viol
     return n_eval, n_viol_known
 
 
+CENSUS_HEAD = r"""
+#![allow(dead_code, unused_imports)]
+use cglue::arc::*;
+use cglue::boxed::*;
+use cglue::forward::*;
+use cglue::trait_group::*;
+use cglue::slice::*;
+use cglue::vec::*;
+use cglue::option::*;
+use cglue::result::*;
+use cglue::callback::*;
+use cglue::iter::*;
+use std::cell::Cell;
+use std::marker::PhantomData;
+use std::rc::Rc;
+pub struct SS(pub u64);
+pub struct SO(pub Cell<u64>);
+pub struct YO(pub PhantomData<std::sync::MutexGuard<'static, ()>>, pub u64);
+pub struct NN(pub Rc<u64>);
+struct PS<T: ?Sized>(PhantomData<T>);
+trait Fallback {
+    const SEND: bool = false;
+    const SYNC: bool = false;
+    const OPQ: bool = false;
+    const OSEND: bool = false;
+    const OSYNC: bool = false;
+}
+impl<T: ?Sized> Fallback for PS<T> {}
+impl<T: ?Sized + Send> PS<T> { const SEND: bool = true; }
+impl<T: ?Sized + Sync> PS<T> { const SYNC: bool = true; }
+impl<T: Opaquable> PS<T> { const OPQ: bool = true; }
+struct PQS<T: ?Sized>(PhantomData<T>);
+struct PQY<T: ?Sized>(PhantomData<T>);
+impl<T: ?Sized> Fallback for PQS<T> {}
+impl<T: ?Sized> Fallback for PQY<T> {}
+impl<T: Opaquable> PQS<T> where T::OpaqueTarget: Send { const OSEND: bool = true; }
+impl<T: Opaquable> PQY<T> where T::OpaqueTarget: Sync { const OSYNC: bool = true; }
+"""
+
+
+def census(c, rules_known):
+    """every `impl Opaquable for X` of the library against SendSync!KnownRules; unknown single-parameter rules are probed"""
+    import re, subprocess
+    found = []
+    for root, _, files in os.walk(os.path.join(lib.REPO, "cglue", "src")):
+        if "/tests" in root:
+            continue
+        for f in files:
+            if not f.endswith(".rs"):
+                continue
+            src = open(os.path.join(root, f)).read()
+            for m in re.finditer(r"impl\s*(<[^{;]*?>)?\s*(?:[\w:]*::)?Opaquable\s+for\s+([^{;]+?)\s*(?:where\b[^{]*)?\{", src, re.S):
+                gen, selfty = m.group(1) or "", " ".join(m.group(2).split())
+                found.append((os.path.relpath(os.path.join(root, f), lib.REPO), gen, selfty))
+    norm = lambda t: re.sub(r"\s+", "", re.sub(r"'\w+\s*,?\s*", "", t))
+    unknown = [x for x in found if norm(x[2]) not in rules_known]
+    c.cov["opaquable_rules_found"] = sorted({norm(x[2]) for x in found})
+    missing = sorted(set(rules_known) - {norm(x[2]) for x in found})
+    if missing:
+        c.drift("SendSync!KnownRules lists conversion rules the library no longer has: %s" % missing)
+    if not unknown:
+        return
+    body, labels = [], []
+    for (f, gen, selfty) in unknown:
+        params = [p.split(":")[0].strip() for p in re.sub(r"^<|>$", "", gen).split(",") if p.strip() and not p.strip().startswith("'")]
+        if len(params) != 1:
+            c.drift("conversion rule `impl%s Opaquable for %s` (%s) is not in SendSync!KnownRules and cannot be probed automatically" % (gen, selfty, f))
+            continue
+        for pc, pt in (("SendSync", "SS"), ("SendOnly", "SO"), ("SyncOnly", "YO"), ("Neither", "NN")):
+            ty = re.sub(r"\b%s\b" % re.escape(params[0]), pt, re.sub(r"'\w+", "'static", selfty))
+            labels.append((f, selfty, pc))
+            body.append('    out.push(serde_json::json!({"rule": %s, "p": "%s", "base": {"Send": <PS<%s>>::SEND, "Sync": <PS<%s>>::SYNC}, "conv": <PS<%s>>::OPQ, '
+                        '"opaque": {"Send": <PQS<%s>>::OSEND, "Sync": <PQY<%s>>::OSYNC}}));' % (json.dumps(selfty), pc, ty, ty, ty, ty, ty))
+    if not body:
+        return
+    crate = os.path.join(lib.workdir("c09"), "census")
+    os.makedirs(os.path.join(crate, "src"), exist_ok=True)
+    open(os.path.join(crate, "src", "main.rs"), "w").write(CENSUS_HEAD + "fn main() {\n    let mut out: Vec<serde_json::Value> = vec![];\n" + "\n".join(body) + '\n    println!("{}", serde_json::Value::Array(out));\n}\n')
+    open(os.path.join(crate, "Cargo.toml"), "w").write('[package]\nname = "census"\nversion = "0.0.0"\nedition = "2018"\n\n[workspace]\n\n[dependencies]\ncglue = { path = "%s/cglue" }\nserde_json = "1"\n' % lib.REPO)
+    os.makedirs(os.path.join(crate, ".cargo"), exist_ok=True)
+    open(os.path.join(crate, ".cargo", "config.toml"), "w").write("[net]\noffline = true\n")
+    open(os.path.join(crate, "Cargo.lock"), "w").write(open(os.path.join(lib.HARNESS, "Cargo.lock")).read())
+    td = os.path.join(lib.HARNESS, "target", "census")
+    pb = subprocess.run(["cargo", "build", "--offline", "--target-dir", td], cwd=crate, capture_output=True, text=True, env=lib.cargo_env())
+    if pb.returncode != 0:
+        c.drift("conversion rules not in SendSync!KnownRules (%s) could not be probed: the probe does not build: %s" % ([u[2] for u in unknown], pb.stderr[-400:]))
+        return
+    rc, _, outp = lib.run_adapter([os.path.join(td, "debug", "census")])
+    if rc != 0:
+        c.drift("census probe failed to run")
+        return
+    for cell in json.loads(outp.strip().splitlines()[-1]):
+        for m in ("Send", "Sync"):
+            if cell["conv"] and cell["opaque"][m] and not cell["base"][m]:
+                c.violation("a conversion rule that is not in the specification, `Opaquable for %s`: over a %s payload its opaque form is %s but the typed form is not" % (cell["rule"], cell["p"], m), {"cell": cell})
+    c.cov["opaquable_rules_probed_beyond_the_specification"] = sorted({u[2] for u in unknown})
+
+
 def run(tier):
     c = Check(PROP, tier)
     wd = lib.workdir("c09")
@@ -108,6 +206,7 @@ def run(tier):
     pred = json.loads(open(jl).read())
     c.add_tlc("SendSync.cfg", r)
     predicted = {(x["w"], x["i"], x["p"]): x for x in pred["cells"]}
+    census(c, set(pred["rules"]))
     bindir = cargo_build("probes", bins=["sendprobe"])
     rc, _, outp = lib.run_adapter([os.path.join(bindir, "sendprobe")])
     if rc != 0:
